@@ -38,6 +38,8 @@ SNIPPETS = [
     ("goto done\n::done::\n", "lua52"), ("local x <const> = 1\n", "lua54"), ("local x = a // b | c ~ d\n", "lua54"),
     ("local x: number = (y :: any) :: number\n", "luau"), ("type T = { a: number, b: (string) -> () } | nil\n", "luau"),
     ("type A = { read number }\ntype F<T... = (string)> = (T...) -> ()\n", "luau"), ("local function g() x += 1 end\nif a then y -= 2 end\n", "luau"), ("local s = if a then b else c\n", "luau"), ("x += f(`a{b}c`)\n", "luau"), ("local function f<T>(a: T, ...: number): (T, number) return a, 1 end\n", "luau"),
+    ("local t = { a = if x then y else (z), [k] = if p then (q) else r }\nprint(`v { {1} :: any } w`)\n", "luau"),
+    ("#!/usr/bin/lua\nlocal b = require(\"b\")\nlocal a = require(\"a\")\n", "lua51"),
 ]
 COMMENTS = [(" -- x\n", "line"), (" --[[x]] ", "block"), ("\n-- x\n", "own-line"), ("\n--[[x]]\n", "own-line-block")]
 CONFIGS = [dict(), dict(collapse_simple_statement="Always", call_parentheses="None"), dict(sort_requires="true", call_parentheses="Input", collapse_simple_statement="FunctionOnly")]
